@@ -1,6 +1,6 @@
 #!/bin/bash
 # usage: try_refactors.sh <dir-with-refactorN.diff>  — every claimed quick check on every refactoring; prints non-zero exits
-d=$1
+d=$(realpath $1)
 props=$(python3 -c "import json;print(' '.join(c['property_id'] for c in json.load(open('/verif/MANIFEST.json'))['checks']))")
 for f in $d/refactor*.diff; do
   wt=/tmp/tryrf.$$
